@@ -446,6 +446,37 @@ fn record_ok(rec: &[u8], end_offset: usize, cuts: &BTreeSet<usize>, known: &Know
     ok(rec, end_offset, cuts, known, sep, 0)
 }
 
+thread_local! {
+    /// A dynamic fault program for the next `exec_plan` on this thread (consumed by it): faults whose position
+    /// depends on what the worker does after the previous one (see `FaultChain`).
+    static NEXT_FAULT_FN: std::cell::RefCell<Option<Arc<dyn Fn(u64, &OpKind) -> Option<Fault> + Send + Sync>>> = const { std::cell::RefCell::new(None) };
+}
+
+/// A chain of dependent faults: the first fires at the first call of its kind at or after `start_at`, every further
+/// one at the next call of its kind after the previous fault fired - wherever the worker's recovery path puts it.
+#[derive(Clone, Debug)]
+pub struct FaultChain {
+    pub start_at: u64,
+    pub steps: Vec<(OpKind, Fault)>,
+}
+
+pub fn exec_plan_chain(plan: &Plan, chain: &FaultChain, crash_pick: &mut dyn FnMut(u32) -> u32, want_trace: bool) -> Exec {
+    let state = Arc::new(Mutex::new(0usize));
+    let chain2 = chain.clone();
+    let f: Arc<dyn Fn(u64, &OpKind) -> Option<Fault> + Send + Sync> = Arc::new(move |index, kind| {
+        let mut at = state.lock().unwrap();
+        let (want, fault) = chain2.steps.get(*at)?;
+        if (*at > 0 || index >= chain2.start_at) && want == kind {
+            *at += 1;
+            Some(fault.clone())
+        } else {
+            None
+        }
+    });
+    NEXT_FAULT_FN.with(|c| *c.borrow_mut() = Some(f));
+    exec_plan(plan, &BTreeMap::new(), crash_pick, false, want_trace)
+}
+
 pub fn exec_plan(
     plan: &Plan,
     faults: &BTreeMap<u64, Fault>,
@@ -478,8 +509,9 @@ pub fn exec_plan(
         ($($a:tt)*) => { if want_trace { ex.trace.push(format!($($a)*)); } };
     }
 
-    let fs = SimFs::new();
+    let mut fs = SimFs::new();
     fs.lock().faults = faults.clone();
+    fs.fault_fn = NEXT_FAULT_FN.with(|c| c.borrow_mut().take());
     let file_path = |name: &str| if cfg.dir.is_empty() { name.to_string() } else { format!("{}/{}", cfg.dir, name) };
     for (name, body, foreign) in &plan.existing {
         fs.seed_file(&file_path(name), body, *foreign);
@@ -655,6 +687,7 @@ pub fn exec_plan(
                     attempts += 1;
                     let remaining_before = b.remaining();
                     let w = worker.as_mut().unwrap();
+                    let attempt_log_start = fs.lock().log.len();
                     let r = panic::catch_unwind(AssertUnwindSafe(|| w.on_batch(b)));
                     match r {
                         Ok(Ok(())) => {
@@ -663,6 +696,22 @@ pub fn exec_plan(
                         Ok(Err(None)) => {
                             outcome = "failed_no_retry";
                             faulted_since_ack = true;
+                            // "a write failure returns the unwritten remainder for retry": giving a batch up for good is
+                            // what a failed flush/sync of bytes written in this attempt does, nothing else
+                            let st = fs.lock();
+                            let this_attempt = &st.log[attempt_log_start..];
+                            let wrote = this_attempt.iter().any(|o| o.kind == OpKind::Write && o.bytes > 0);
+                            let write_failed = this_attempt.iter().any(|o| o.kind == OpKind::Write && !o.ok);
+                            if !wrote && write_failed {
+                                let calls: Vec<String> = this_attempt.iter().map(|o| format!("{:?}{}", o.kind, if o.ok { "" } else { " FAILED" })).collect();
+                                drop(st);
+                                violate!(
+                                    "C10",
+                                    "write_failure_not_retried",
+                                    "attempt {attempts} wrote nothing, failed at a write and still gave the batch up for good ({} events lost although retries remain); calls: {calls:?}",
+                                    remaining_before.len()
+                                );
+                            }
                         }
                         Ok(Err(Some(rem))) => {
                             faulted_since_ack = true;
@@ -1265,6 +1314,54 @@ impl Engine for Fsim {
             }
             for (p, r, d) in &ex.violations {
                 out.violate(p, r, format!("[outage: every filesystem call from #{start} to #{} fails] {d}", start + len - 1));
+            }
+        }
+        // fault chains: 2-3 faults where each lands on the next call of a chosen kind after the previous one fired,
+        // i.e. inside the recovery from the previous fault (retry on a new file, sync before handing back a remainder ...)
+        let n_chains = if ctx.thorough { 16 } else { 6 };
+        for _ in 0..n_chains {
+            let len = 2 + ch.choose(2) as usize;
+            let mut steps = Vec::new();
+            for i in 0..len {
+                let kind = if i == 0 {
+                    ch.pick(&[OpKind::Write, OpKind::Write, OpKind::SyncAll, OpKind::OpenNew]).clone()
+                } else {
+                    ch.pick(&[OpKind::Write, OpKind::Write, OpKind::SyncAll, OpKind::Flush, OpKind::OpenNew, OpKind::SyncParent, OpKind::ReadDir, OpKind::OpenExisting]).clone()
+                };
+                let options = applicable_faults(&kind);
+                // no crashes inside chains: the point is what the same worker does next
+                let options: Vec<Fault> = options
+                    .into_iter()
+                    .filter(|f| !matches!(f, Fault::CrashBefore | Fault::CrashAfter | Fault::CrashMid(..)))
+                    .collect();
+                let f = options[ch.choose(options.len() as u32) as usize].clone();
+                steps.push((kind, f));
+            }
+            let chain = FaultChain {
+                start_at: ch.choose(kinds.len() as u32 + 1) as u64,
+                steps,
+            };
+            let mut pick = |n: u32| -> u32 { ch.choose(n) };
+            let ex = exec_plan_chain(&plan, &chain, &mut pick, false);
+            executions += 1;
+            out.steps += ex.ops;
+            if ex.fired.len() >= 2 {
+                out.probe("fault_chain_with_2plus_fired");
+            }
+            if ex.fired.len() >= 3 {
+                out.probe("fault_chain_with_3_fired");
+            }
+            for (_, k, _) in &ex.fired {
+                out.fault(k);
+            }
+            if !ex.fired.is_empty() {
+                fired_total += 1;
+            }
+            for p in &ex.probes {
+                out.probe(p);
+            }
+            for (p, r, d) in &ex.violations {
+                out.violate(p, r, format!("[fault chain {chain:?}] {d}"));
             }
         }
         out.evals = executions;
